@@ -61,6 +61,7 @@ def run(ctx):
     ctx.clauses.append("relator permutation set / representative range over all rotations 0..len() and both the rotation and its inverse (T4)")
     gg = ctx.facts.getters()
     rotations_reached(ctx, gg)
+    representative_minimum(ctx, gg)
     for fn in ("fpgroups::free_words::relator_permutations", "fpgroups::free_words::relator_representative"):
         b = ctx.body(fn)
         ctx.scan([b])
@@ -115,6 +116,65 @@ def run(ctx):
             ctx.ob("T8-derived-eq", FW, tr, "ok", "derived on the single field w")
         else:
             ctx.ob("T8-derived-eq", FW, tr, "undecided", "hand-written impl: agreement with Ord not decided")
+
+
+def representative_minimum(ctx, g):
+    """relator_representative returns the LEAST word, in FreeWord's own order, among the rotations of the word and their inverses: the running
+    minimum starts as the word itself, is replaced exactly by a candidate that is smaller than it in that order (a replacement under any other
+    comparison - by length first, by `<=` on something else - picks another element for words that are not cyclically reduced, where rotations
+    reduce to different lengths), both candidates of every rotation are compared, and the running minimum is what is returned."""
+    ctx.clauses.append("relator_representative: running minimum under FreeWord's own `<`, seeded with the word, both candidates compared, returned (T3)")
+    b = ctx.body("fpgroups::free_words::relator_representative")
+    fw = ("param", 1, b.debug.get(1, ""))
+    bad = None
+    ret = strip(norm(b.local_origin(0), g))
+    cands = [l for l in b.debug if not b.is_stable_local(l) and b.local_ty(l).endswith("FreeWord")]
+    defs = None
+    best = None
+    for l in cands:
+        ds_ = [(dbb, strip(norm(d, g))) for dbb, d in b.all_defs_origins(l)]
+        if len(ds_) >= 2:
+            best, defs = ("local", l, b.debug.get(l, "")), ds_
+    rets = [strip(norm(d, g)) for _, d in b.all_defs_origins(0)] if ret[0] == "local" else [ret]
+    if best is None:
+        bad = "no running minimum (a FreeWord local that is re-assigned) was found"
+    else:
+        init = [d for dbb, d in defs if loop_containing(b, dbb) is None]
+        inloop = [(dbb, d) for dbb, d in defs if loop_containing(b, dbb) is not None]
+        if init != [fw]:
+            bad = "the running minimum does not start as the word itself"
+        kinds = set()
+        for dbb, d in inloop:
+            fa = [atom_norm(a, g) for a in b.facts_at(dbb)]
+            def smaller(a, d=d):
+                # candidate < best or candidate <= best (replacing by an equal word changes nothing), in any spelling of FreeWord's order
+                if a[0] != "rel":
+                    return False
+                x, y = strip(a[2]), strip(a[3])
+                if a[1] in ("Lt", "Le") and x == d and y == best:
+                    return True
+                for c, o in ((x, y), (y, x)):
+                    if is_call(c, "Ord::cmp") and o[0] == "agg" and "cmp::Ordering::" in o[1]:
+                        cx, cy = strip(c[2][0]), strip(c[2][1])
+                        which = o[1].split("::")[-1]
+                        if (cx, cy) == (d, best) and ((a[1] == "Eq" and which == "Less") or (a[1] == "Ne" and which == "Greater")):
+                            return True
+                        if (cx, cy) == (best, d) and ((a[1] == "Eq" and which == "Greater") or (a[1] == "Ne" and which == "Less")):
+                            return True
+                return False
+            if not any(smaller(a) for a in fa):
+                bad = bad or "the running minimum is replaced by %s without the test `candidate < best` in FreeWord's order dominating the replacement" % show(d, 1)[:60]
+            kinds.add("inverse" if is_call(d, "FreeWord::inverse") else "rotation" if is_call(d, "FreeWord::rotated") else "other")
+        if not bad and kinds != {"inverse", "rotation"}:
+            bad = "the candidates that can replace the running minimum are %s, not every rotation and its inverse" % sorted(kinds)
+        if not bad and best not in rets:
+            bad = "the running minimum is not what is returned for a non-empty word"
+        # the comparison is FreeWord's: `<` resolves to PartialOrd::lt on FreeWord operands
+        lts = [t for bi, t in b.calls("PartialOrd::lt")]
+        if not bad and not all("FreeWord" in " ".join(str(x) for x in t["callee"].get("args", [])) and "(" not in str(t["callee"].get("args", [""])[0]) for t in lts):
+            bad = "a comparison in relator_representative is not between two FreeWords"
+    ctx.ob("T3-representative-minimum", b.name, "best = candidate iff candidate < best", "ok" if not bad else "violation",
+           "seeded with the word; replaced exactly under `candidate < best`; rotation and inverse both compared; returned" if not bad else bad)
 
 
 def ordering(ctx, g):
